@@ -388,6 +388,20 @@ pub fn gen_resize(rng: &mut Rng, cfg: &ResizeCfg, classes: &mut Vec<String>, pt_
         }
         classes.push("zero-dim".into());
     }
+    // "one-axis" geometry: one direction is an identity (integer origin, crop size ==
+    // destination size) inside a larger source, so that only ONE pass runs, straight from
+    // the caller's source to the caller's destination, with source rows/columns to spare
+    let mut one_axis: Option<bool> = None;
+    if !wrap && dw > 0 && dh > 0 && sw > 0 && sh > 0 && rng.chance(1, 7) {
+        let vertical_identity = rng.chance(2, 3);
+        if vertical_identity {
+            sh = dh + rng.range(0, 12) as u32;
+        } else {
+            sw = dw + rng.range(0, 12) as u32;
+        }
+        one_axis = Some(vertical_identity);
+        classes.push("geometry:one-axis".into());
+    }
     let (sk, dk) = if wrap {
         (Kind::Slice, Kind::Slice)
     } else if dw == 0 || dh == 0 || sw == 0 || sh == 0 {
@@ -405,6 +419,19 @@ pub fn gen_resize(rng: &mut Rng, cfg: &ResizeCfg, classes: &mut Vec<String>, pt_
     let dst = mk_img(rng, dw, dh, dk, pt, true, yield_rows);
     let (crop, cclass) = if sw == 0 || sh == 0 {
         (Crop::None, "none")
+    } else if let Some(vertical_identity) = one_axis {
+        let (swf, shf) = (sw as f64, sh as f64);
+        if vertical_identity {
+            let t = rng.range(0, (sh - dh) as u64) as f64;
+            let l = if rng.chance(1, 2) { 0.0 } else { rng.f64() * swf * 0.4 };
+            let w = (swf - l) * (0.3 + 0.7 * rng.f64());
+            (Crop::Box([f(l), f(t), f(w), f(dh as f64)]), "one-axis")
+        } else {
+            let l = rng.range(0, (sw - dw) as u64) as f64;
+            let t = if rng.chance(1, 2) { 0.0 } else { rng.f64() * shf * 0.4 };
+            let h = (shf - t) * (0.3 + 0.7 * rng.f64());
+            (Crop::Box([f(l), f(t), f(dw as f64), f(h)]), "one-axis")
+        }
     } else {
         pick_crop(rng, sw, sh, dw, dh, cfg.edge_weight, cfg.allow_invalid)
     };
@@ -540,6 +567,100 @@ fn base(prop: &str, seed: u64, rng: &mut Rng, thorough: bool) -> Scenario {
     }
 }
 
+/// A variation of an earlier resize of the history: the same call with ONE thing changed
+/// (what an incompletely keyed cache would confuse), or the same shape slightly bigger
+/// (what a grow-only buffer with a wrong grow condition would trip over).
+fn vary_resize(rng: &mut Rng, prev: &ResizeOp, classes: &mut Vec<String>) -> ResizeOp {
+    let mut r = prev.clone();
+    r.src.panic_at = 0;
+    r.dst.panic_at = 0;
+    match rng.below(12) {
+        0 => {
+            // Convolution <-> Interpolation <-> SuperSampling, same filter
+            r.alg = match r.alg {
+                Alg::Conv(f) => {
+                    if rng.chance(1, 2) {
+                        Alg::Interp(f)
+                    } else {
+                        Alg::Super(f, 2)
+                    }
+                }
+                Alg::Interp(f) => Alg::Conv(f),
+                Alg::Super(f, _) => {
+                    if rng.chance(1, 2) {
+                        Alg::Conv(f)
+                    } else {
+                        Alg::Interp(f)
+                    }
+                }
+                Alg::Nearest => Alg::Conv(Filt::Bilinear),
+            };
+            classes.push("vary:alg-kind".into());
+        }
+        1 => {
+            let nf = pick_filt(rng);
+            r.alg = match r.alg {
+                Alg::Conv(_) => Alg::Conv(nf),
+                Alg::Interp(_) => Alg::Interp(nf),
+                Alg::Super(_, m) => Alg::Super(nf, m),
+                Alg::Nearest => Alg::Nearest,
+            };
+            classes.push("vary:filter".into());
+        }
+        2 => {
+            r.use_alpha = !r.use_alpha;
+            classes.push("vary:use-alpha".into());
+        }
+        3 => {
+            // same geometry, other pixel type of the same size class or another one
+            r.pt = *rng.pick(&ALL_PT);
+            r.dst_pt = None;
+            classes.push("vary:pixel-type".into());
+        }
+        4 => {
+            r.src.content_seed ^= 0x5555;
+            r.src.content = Content::Random;
+            classes.push("vary:content".into());
+        }
+        5 => {
+            // shift the crop a little (only boxes)
+            if let Crop::Box(b) = r.crop {
+                let dx = if b[0].0 >= 0.25 { -0.25 } else { 0.0 };
+                r.crop = Crop::Box([F(b[0].0 + dx), b[1], b[2], b[3]]);
+            } else {
+                r.crop = Crop::None;
+            }
+            classes.push("vary:crop".into());
+        }
+        6..=8 => {
+            // slow growth: destination (and source) 10-60 % bigger, same everything else
+            let k = 1.1 + rng.f64() * 0.5;
+            let g = |v: u32| ((v as f64 * k).ceil() as u32).max(v + 1).min(400);
+            match rng.below(3) {
+                0 => r.dst.h = g(r.dst.h),
+                1 => r.dst.w = g(r.dst.w),
+                _ => {
+                    r.src.w = g(r.src.w);
+                    r.src.h = g(r.src.h);
+                }
+            }
+            if let Crop::Box(_) = r.crop {
+                r.crop = Crop::None;
+            }
+            classes.push("vary:grow".into());
+        }
+        9 => {
+            let sh = (r.dst.h / 2).max(1);
+            r.dst.h = sh;
+            classes.push("vary:shrink".into());
+        }
+        _ => {
+            classes.push("vary:identical".into());
+        }
+    }
+    r
+}
+
 fn backend(rng: &mut Rng, k: &Knobs) -> Backend {
     *rng.pick(&k.backends)
 }
@@ -653,9 +774,16 @@ pub fn generate(k: &Knobs, seed: u64) -> Scenario {
                         let mut c = ResizeCfg { ..cfg };
                         c.max_dim = if big { 128 } else { 40 };
                         big = if rng.chance(3, 4) { !big } else { big };
-                        let mut r = gen_resize(&mut rng, &c, &mut classes, None);
+                        let prev: Option<ResizeOp> = ops.iter().rev().find_map(|o: &Op| match &o.kind {
+                            OpKind::Resize(r) => Some(r.clone()),
+                            _ => None,
+                        });
+                        let mut r = match prev {
+                            Some(p) if rng.chance(2, 5) && p.src.w > 0 && p.src.h > 0 && p.dst.w > 0 && p.dst.h > 0 => vary_resize(&mut rng, &p, &mut classes),
+                            _ => gen_resize(&mut rng, &c, &mut classes, None),
+                        };
                         // alpha and supersampling use the other two buffers: bias towards them
-                        if rng.chance(1, 3) {
+                        if rng.chance(1, 5) {
                             r.alg = Alg::Super(pick_filt(&mut rng), *rng.pick(&[2u8, 2, 3, 4]));
                         }
                         if inject && rng.chance(1, 3) && inject_panic(&mut rng, &mut r) {
@@ -769,7 +897,14 @@ pub fn generate(k: &Knobs, seed: u64) -> Scenario {
                     9..=10 => OpKind::Map(gen_map(&mut rng, cfg.max_dim, &mut classes)),
                     11..=12 => OpKind::Convert(gen_convert(&mut rng, cfg.max_dim, &mut classes)),
                     _ => {
-                        let mut r = gen_resize(&mut rng, &cfg, &mut classes, None);
+                        let prev: Option<ResizeOp> = ops.iter().rev().find_map(|o: &Op| match &o.kind {
+                            OpKind::Resize(r) => Some(r.clone()),
+                            _ => None,
+                        });
+                        let mut r = match prev {
+                            Some(p) if rng.chance(1, 4) && p.src.w > 0 && p.src.h > 0 && p.dst.w > 0 && p.dst.h > 0 => vary_resize(&mut rng, &p, &mut classes),
+                            _ => gen_resize(&mut rng, &cfg, &mut classes, None),
+                        };
                         if inject && rng.chance(1, 3) && inject_panic(&mut rng, &mut r) {
                             classes.push("fault:panic".into());
                         }
